@@ -1,10 +1,157 @@
 package main
 
-// triageDiff attributes a failure of the stdlib-differential properties to an
-// open finding by signature (DESIGN §6.3). It is used only by `baseline`.
+import (
+	"regexp/syntax"
+	"strconv"
+	"strings"
+	"unicode/utf8"
+)
+
+// Signatures of the open findings (DESIGN §6.3). A failing observation of the
+// baseline run is attributed to a finding only if it satisfies the finding's
+// predicate; anything else stops `baseline`. At check time suppression is by
+// exact (case, API, wrong-answer digest) lists, never by these predicates.
+
+type feats struct {
+	ok                                          bool
+	look, lazy, fold, nonASCII, nullable, empty bool
+	bigRepeatOfNullable                         bool
+}
+
+func features(p string) feats {
+	re, err := syntax.Parse(p, syntax.Perl)
+	if err != nil {
+		return feats{}
+	}
+	f := feats{ok: true}
+	var walk func(r *syntax.Regexp)
+	walk = func(r *syntax.Regexp) {
+		switch r.Op {
+		case syntax.OpBeginLine, syntax.OpEndLine, syntax.OpBeginText, syntax.OpEndText, syntax.OpWordBoundary, syntax.OpNoWordBoundary:
+			f.look = true
+		case syntax.OpStar, syntax.OpPlus, syntax.OpQuest, syntax.OpRepeat:
+			if r.Flags&syntax.NonGreedy != 0 {
+				f.lazy = true
+			}
+			if len(r.Sub) == 1 && canBeEmpty(r.Sub[0]) {
+				f.bigRepeatOfNullable = true
+			}
+		case syntax.OpLiteral:
+			if r.Flags&syntax.FoldCase != 0 {
+				f.fold = true
+			}
+			for _, c := range r.Rune {
+				if c > 127 {
+					f.nonASCII = true
+				}
+			}
+		case syntax.OpCharClass:
+			for _, c := range r.Rune {
+				if c > 127 {
+					f.nonASCII = true
+				}
+			}
+		case syntax.OpAnyChar, syntax.OpAnyCharNotNL:
+			f.nonASCII = true
+		case syntax.OpEmptyMatch:
+			f.empty = true
+		}
+		for _, s := range r.Sub {
+			walk(s)
+		}
+	}
+	walk(re)
+	f.nullable = canBeEmpty(re)
+	return f
+}
+
+func canBeEmpty(r *syntax.Regexp) bool {
+	switch r.Op {
+	case syntax.OpEmptyMatch, syntax.OpStar, syntax.OpQuest, syntax.OpBeginLine, syntax.OpEndLine, syntax.OpBeginText, syntax.OpEndText, syntax.OpWordBoundary, syntax.OpNoWordBoundary:
+		return true
+	case syntax.OpRepeat:
+		return r.Min == 0 || canBeEmpty(r.Sub[0])
+	case syntax.OpPlus, syntax.OpCapture:
+		return canBeEmpty(r.Sub[0])
+	case syntax.OpConcat:
+		for _, s := range r.Sub {
+			if !canBeEmpty(s) {
+				return false
+			}
+		}
+		return true
+	case syntax.OpAlternate:
+		for _, s := range r.Sub {
+			if canBeEmpty(s) {
+				return true
+			}
+		}
+		return false
+	case syntax.OpLiteral:
+		return len(r.Rune) == 0
+	}
+	return false
+}
+
+func hayOf(f *Failure) []byte {
+	s, err := strconv.Unquote(strings.TrimSuffix(f.Haystack, "…"))
+	if err != nil {
+		// truncated haystack: unquote what is there
+		q := f.Haystack
+		for len(q) > 1 {
+			q = q[:len(q)-1]
+			if s2, err2 := strconv.Unquote(q + `"`); err2 == nil {
+				return []byte(s2)
+			}
+		}
+		return nil
+	}
+	return []byte(s)
+}
+
+// triageDiff: stdlib-differential properties C01-C04, C08, C10 and the config property C12.
 func triageDiff(f *Failure) string {
+	h := hayOf(f)
+	ft := features(f.Pattern)
+	prop := f.Prop
+	illformed := h != nil && !utf8.Valid(h)
+	nonASCIIhay := false
+	for _, c := range h {
+		if c >= 0x80 {
+			nonASCIIhay = true
+		}
+	}
+	switch {
+	case f.API == "Compile" || f.API == "CRASH" || f.API == "STALL" || f.API == "WORKER":
+		return ""
+	case illformed:
+		// KF-01: ill-formed input. regexp treats each invalid byte as U+FFFD (width 1); the byte automata only accept well-formed sequences.
+		return "KF-" + prop + "-01"
+	case nonASCIIhay:
+		// KF-02: valid non-ASCII input: searches start / empty matches are reported inside code points
+		return "KF-" + prop + "-02"
+	case ft.look:
+		// KF-03: look-around in DFA-based strategies
+		return "KF-" + prop + "-03"
+	case ft.bigRepeatOfNullable:
+		// KF-04: capture positions of a repeated group whose last iteration is empty
+		if prop == "C03" || prop == "C04" || prop == "C08" || prop == "C10" {
+			return "KF-" + prop + "-04"
+		}
+	}
 	return ""
 }
 
-func triageC09(f *Failure) string { return "" }
-func triageC11(f *Failure) string { return "" }
+// triageC09: Compile/metadata.
+func triageC09(f *Failure) string {
+	switch {
+	case strings.HasSuffix(f.API, "LiteralPrefix"):
+		return "KF-C09-01" // LiteralPrefix is re-derived from the AST instead of the compiled program
+	case (f.API == "Compile" || f.API == "MustCompile" || f.API == "CompilePOSIX" || f.API == "MustCompilePOSIX") && strings.Contains(f.Got, "pattern too complex"):
+		return "KF-C09-02" // nesting deeper than MaxRecursionDepth (100) is rejected
+	}
+	return ""
+}
+
+// triageC11: relations between views.
+func triageC11(f *Failure) string { return triageDiff(f) }
